@@ -77,7 +77,7 @@ struct St {
   std::vector<Script> scripts;
   // delivery in progress
   bool in_delivery = false; int cur_type = 0; int last_seq = 0; int cur_calls = 0; int cur_actions = 0;
-  bool in_callback = false, in_decode = false;
+  bool in_callback = false, in_decode = false, trigger_cr = false;
   // counters
   int deliveries = 0, deliveries_multi = 0, calls = 0, cb_actions = 0, ttx_flips = 0, probes_checked = 0;
   bool ttx_on = false;
@@ -172,6 +172,7 @@ static void delivery_begin(int type) {
   s.in_delivery = true; s.cur_type = type; s.last_seq = 0; s.cur_calls = 0; s.cur_actions = 0;
   for (auto& x : s.lst) { x.st = (x.mask & type) ? ST_MUST : ST_NOT; x.called = false; }
   s.ctx->log("raise type=%x handlers=%zu", (unsigned)type, s.lst.size());
+  if (s.in_decode && type == VBI_EVENT_TRIGGER && !s.trigger_cr) s.ctx->count("deferred_trigger_fired");
   if (s.in_decode) { char k[40]; snprintf(k, sizeof k, "raised_by_data_%03x", (unsigned)type & 0xFFF); s.ctx->count(k); }
 }
 // every handler that was registered for the type before the raise, is still registered, whose mask was not
@@ -520,13 +521,15 @@ struct C11 : World {
         // trigger fires at once or never, which the oracle does not care about
         char url[48];
         if (v & 8) {
-          int at = (int)s.ts + 1 + (v & 3);
+          int at = (int)s.ts + 1;  // fires within the next 25 frames
           snprintf(url, sizeof url, "<http://zs.tv/%c>[time:19700101T%02d%02d%02d]", 'a' + (v & 7), at / 3600, (at / 60) % 60, at % 60);
           if (strlen(url) & 1) { s.ctx->fail("harness:url", "odd trigger length"); return; }
         } else snprintf(url, sizeof url, "<http://zs.tv/%c>", 'a' + (v & 7));
         frame(sl_cc(21, 0x1C, 0x2A)); frame(sl_cc(21, 0x1C, 0x2A));  // text restart, channel T2
         for (size_t i = 0; url[i] && url[i + 1]; i += 2) frame(sl_cc(21, url[i], url[i + 1]));
+        s.trigger_cr = true;
         frame(sl_cc(21, 0x1C, 0x2D)); frame(sl_cc(21, 0x1C, 0x2D));  // carriage return ends the trigger string
+        s.trigger_cr = false;
         break;
       }
       default: {  // WSS 625: five identical words
